@@ -303,6 +303,11 @@ func guardOp(op model.Op, db *model.DB, usesV2 bool) []string {
 				if op.Kind == "Get" || op.Kind == "Delete" || op.Kind == "Update" {
 					key = op.Key
 				}
+				if op.Kind == "Put" && op.Item != nil {
+					// (a put addresses a key too: its condition is evaluated on what is stored there,
+					// also when the model refuses the put and nothing new gets stored)
+					key = t.KeyItem(op.Item)
+				}
 				if key != nil {
 					if ck, ok := t.KeyOf(key); ok {
 						r := implKey(key, t.Schema.Hash, t.Schema.Range)
